@@ -1001,14 +1001,12 @@ def decode_day_of_week(data: int) -> str:
     if data == 0:
         return ""
     bits = bin(data)[2:]
-    daynames = list(DAY_NAMES)
     days = ""
-    for each in bits[::-1]:
+    for each, dayname in zip(bits[::-1], DAY_NAMES):
         if each == '1':
             if len(days) > 0:
                 days += ","
-            days += daynames[0]
-        daynames.pop(0)
+            days += dayname
     return days
 
 
